@@ -383,10 +383,15 @@ def run(ctx, prop):
             import re
             d0 = row["stale"][0].replace("changed without a checkpoint: ", "")
             first_diff = re.sub(r"\[\d+\]", "[]", d0.split(":")[0])
-            key = "checkpoint stale after %s(%s) at %s" % (row["ev"], ",".join("%s=%s" % (k, "0" if row["args"][k] == 0 else "x")
-                                                           for k in sorted(row["args"]) if k in ("when", "v")), first_diff)
-            desc = ("%s changed the state but the checkpoint the backend received last does not have it (state not marked modified?): "
-                    "live vs ReadState(last checkpoint): %s; ops: %s" % (row["ev"], "; ".join(row["stale"][:4]), short_ops(ops)))
+            argtag = ",".join("%s=%s" % (k, "0" if row["args"][k] == 0 else "x") for k in sorted(row["args"]) if k in ("when", "v"))
+            if row["stale"][0].startswith("changed without a checkpoint"):
+                key = "checkpoint stale after %s(%s) at %s" % (row["ev"], argtag, first_diff)
+                desc = ("%s changed the state but no checkpoint was handed to the backend in its Lock/Unlock section (state not marked "
+                        "modified): %s; ops: %s" % (row["ev"], "; ".join(row["stale"][:4]), short_ops(ops)))
+            else:
+                key = "reload of the last checkpoint differs after %s(%s) at %s" % (row["ev"], argtag, first_diff)
+                desc = ("after %s, ReadState(last checkpoint the backend received) does not show the live state (live -> loaded): %s; ops: %s"
+                        % (row["ev"], "; ".join(row["stale"][:4]), short_ops(ops)))
         elif row["ev"] == "SaveReload" and not row["ret"].get("same", True):
             who = "C05"
             diffs = row["ret"].get("diffs") or [row["ret"].get("err", "?")]
